@@ -24,7 +24,7 @@ pub const INFO: PropInfo = PropInfo {
         "the whole client input arrives as one segment and is read by one read (segmentation is C06's quantifier)",
         "custom header names are looked up by handlers in lower case; standard ones through the typed accessors and get()",
     ],
-    expected_probes: &["w.body_crosses_1024", "w.repeated_header", "m.fin_inside_head", "m.fin_inside_body", "g.complete_answered"],
+    expected_probes: &["w.body_crosses_1024", "w.repeated_header", "m.fin_inside_head", "m.fin_inside_body", "g.complete_answered", "m.connection_error_inside_request"],
 };
 
 #[derive(Clone, Debug, Serialize, Deserialize)]
@@ -33,6 +33,18 @@ pub enum After {
     Fin(u64),
     /// nothing more is sent; the client just waits
     Silence,
+    /// the connection fails `delay` after the data: the server's read returns an error of the given kind
+    /// (0 ConnectionReset, 1 ConnectionAborted, 2 TimedOut, 3 BrokenPipe)
+    Rst(u8, u64),
+}
+
+pub fn err_kind(i: u8) -> std::io::ErrorKind {
+    match i {
+        0 => std::io::ErrorKind::ConnectionReset,
+        1 => std::io::ErrorKind::ConnectionAborted,
+        2 => std::io::ErrorKind::TimedOut,
+        _ => std::io::ErrorKind::BrokenPipe,
+    }
 }
 
 #[derive(Clone, Debug, Serialize, Deserialize)]
@@ -56,19 +68,16 @@ struct Obs {
     extra: Vec<u8>,
 }
 
-pub const M_KINDS: [&str; 13] = [
+pub const M_KINDS: [&str; 15] = [
     "trunc-fin", "trunc-silence", "no-second-space", "no-version", "bad-version", "no-colon", "cl-non-numeric", "cl-signed", "cl-overflow", "cl-conflicting", "bad-method-bytes", "nul-in-version",
-    "short-body-fin",
+    "short-body-fin", "trunc-rst", "short-body-rst",
 ];
 
 fn gen_mutation_m(base: &ReqSpec, cfg: &RunCfg, out: &mut Outcome) -> (Vec<u8>, After, &'static str, bool) {
     // returns (bytes, after, kind, complete)
     let full = base.to_bytes();
     let head_len = base.head_bytes().len();
-    let kinds: [&'static str; 13] = [
-        "trunc-fin", "trunc-silence", "no-second-space", "no-version", "bad-version", "no-colon", "cl-non-numeric", "cl-signed", "cl-overflow", "cl-conflicting", "bad-method-bytes", "nul-in-version",
-        "short-body-fin",
-    ];
+    let kinds: [&'static str; 15] = M_KINDS;
     let mut kind = t::pick(&kinds);
     for _ in 0..8 {
         if cfg.avoid(kind) {
@@ -88,7 +97,7 @@ fn gen_mutation_m(base: &ReqSpec, cfg: &RunCfg, out: &mut Outcome) -> (Vec<u8>, 
     let rest = full[line_end..].to_vec();
     let fin_delay = || t::pick(&[0u64, MS, 50 * MS, SEC]);
     match kind {
-        "trunc-fin" | "trunc-silence" => {
+        "trunc-fin" | "trunc-silence" | "trunc-rst" => {
             // cut strictly inside the head (the body case is short-body-fin)
             let k = 1 + t::draw((head_len - 1) as u32) as usize;
             let k = match t::draw(4) {
@@ -98,17 +107,18 @@ fn gen_mutation_m(base: &ReqSpec, cfg: &RunCfg, out: &mut Outcome) -> (Vec<u8>, 
                 _ => head_len - 1 - t::draw(4.min(head_len as u32 - 1)) as usize, // around the final CRLF
             }
             .clamp(1, head_len - 1);
-            let after = if kind == "trunc-fin" { After::Fin(fin_delay()) } else { After::Silence };
+            let after = if kind == "trunc-fin" { After::Fin(fin_delay()) } else if kind == "trunc-rst" { After::Rst(t::draw(4) as u8, fin_delay()) } else { After::Silence };
             (full[..k].to_vec(), after, kind, false)
         }
-        "short-body-fin" => {
+        "short-body-fin" | "short-body-rst" => {
             let mut b = base.clone();
             let body_len = 1 + t::len_near(&[1, 10, 1024], 3000);
             b.body = Some((0..body_len).map(|i| b'a' + (i % 26) as u8).collect());
             let bytes = b.to_bytes();
             let hl = b.head_bytes().len();
             let keep = t::draw(body_len as u32) as usize; // 0..body_len-1 bytes of body
-            (bytes[..hl + keep].to_vec(), After::Fin(fin_delay()), kind, false)
+            let after = if kind == "short-body-fin" { After::Fin(fin_delay()) } else { After::Rst(t::draw(4) as u8, fin_delay()) };
+            (bytes[..hl + keep].to_vec(), after, kind, false)
         }
         "no-second-space" => {
             // "GET /pathHTTP/1.1"
@@ -431,8 +441,13 @@ fn execute(sc: &Scenario, out: &mut Outcome) {
             Err(_) => return,
         };
         c.send(&bytes2, 0);
-        if let After::Fin(d) = after2 {
-            c.send_fin(d);
+        match after2 {
+            After::Fin(d) => c.send_fin(d),
+            After::Rst(k, d) => {
+                c.send_rst(err_kind(k), d);
+                simcore::with(|w| w.count("fault.connection_error"));
+            }
+            After::Silence => {}
         }
         let r = c.recv(head_req, DEFAULT_TIMEOUT).await;
         let got_response = r.is_ok();
@@ -539,6 +554,9 @@ fn execute(sc: &Scenario, out: &mut Outcome) {
             }
             if kind == "trunc-fin" {
                 out.probe("m.fin_inside_head");
+            }
+            if kind == "trunc-rst" || kind == "short-body-rst" {
+                out.probe("m.connection_error_inside_request");
             }
             if kind == "short-body-fin" {
                 out.probe("m.fin_inside_body");
